@@ -16,13 +16,13 @@ CLAUSES = {'entity_exists', 'entities', 'get_components', 'process-raised', 'pro
 generate, project, oracle, nontrivial, stats = _world.make(
     'C05', TAGS, CLAUSES, [
         dict(n_comp=(1, 4), n_proc=(0, 2), handlers=0.6, raises=0.25,
-             w=dict(delete=7, process=5, remove=5, create=3, add=3, clear=0.3, enable=0.7, dispatch=0.3)),
+             w=dict(delete=7, process=5, remove=5, create=3, add=3, clear=1.0, enable=0.7, dispatch=0.3)),
         dict(n_comp=(1, 4), n_proc=(0, 2), handlers=0.6, raises=0.25,
-             w=dict(delete=7, process=5, remove=5, create=3, add=3, clear=0.3, enable=0.7, dispatch=0.3)),
+             w=dict(delete=7, process=5, remove=5, create=3, add=3, clear=1.0, enable=0.7, dispatch=0.3)),
         # callbacks that call delete_entity themselves (an owner's on_remove deleting what it owns, ...)
         dict(n_comp=(2, 4), n_proc=(0, 2), handlers=0.9, raises=0.15, reacts=0.9, traits=0.5,
-             w=dict(delete=7, process=6, remove=4, create=5, add=4, clear=0.2, enable=0.3, dispatch=0.3)),
+             w=dict(delete=7, process=6, remove=4, create=5, add=4, clear=0.8, enable=0.3, dispatch=0.3)),
         # callbacks that call back into the same world while it is being changed (the sweep included)
         dict(n_comp=(2, 4), n_proc=(0, 2), handlers=0.9, reenter=0.95,
-             w=dict(delete=7, process=6, remove=4, create=5, add=4, clear=0.2, enable=0.3, dispatch=0.3)),
+             w=dict(delete=7, process=6, remove=4, create=5, add=4, clear=0.8, enable=0.3, dispatch=0.3)),
     ])
